@@ -12,15 +12,26 @@ TRUST = ("trusted base: rustc's MIR dump of the current tree, the mirsym interpr
 # id -> (level text, note, design ref)
 CLAIMED = {
     "C16": ("All calibration sets of <= K definitions (quick 2, thorough 3) from 10 gate- and 5 measure-calibration shapes (fixed/variable qubits, literal/variable parameters, "
-            "DAGGER, named measurements) with solver-chosen names and qubits, queried by 7 gate / 4 measurement shapes: the real get_match_for_gate / "
-            "get_match_for_measurement against a reference precedence function written from the statement.", TRUST, "5/C16"),
-    "C17": ("All programs of <= 2 calibrations (3 gate headers x 10 bodies incl. recursion, growing parameters, body MEASURE/RESET/DECLARE; 2 measure headers x 4 bodies) and "
+            "DAGGER, named measurements) with solver-chosen names, qubits and bodies, optionally followed by a redefinition of the first signature, queried by 7 gate / 4 "
+            "measurement shapes: the real add_instruction / get_match_for_gate / get_match_for_measurement against a reference precedence function and replace-in-place "
+            "list written from the statement.", TRUST, "5/C16"),
+    "C17": ("All programs of <= 2 calibrations (4 gate headers incl. mixed fixed/variable qubits x 12 bodies incl. recursion, growing parameters, body MEASURE/RESET/DECLARE; 2 measure headers x 4 bodies) and "
             "a body of <= N gate / measure instructions (quick 1, thorough 2): both expansion entry points against a reference expander (substitution of qubit and parameter "
             "variables everywhere, measurement target replaces the target name only, fixpoint, declarations hoisted).", TRUST, "5/C17"),
     "C18": ("Same inputs as C17: expansion must return (call depth bounded by the interpreter; a divergence is replayed natively in a child process) and report "
             "RecursiveCalibration exactly when the reference re-enters an active calibration.", TRUST, "5/C18"),
-    "C19": ("Same inputs as C17: the returned source map is checked structurally (source order, unmodified entries identical, ranges partition the output, nested records "
-            "partition their parent range) and list_sources / list_targets are checked to be inverse. One known finding (hoisted declarations).", TRUST, "5/C19"),
+    "C19": ("Programs of <= 3 calibrations (three levels of nesting; bodies of one to three instructions, one of them a call; shape order non-decreasing in the quick tier): "
+            "the returned source map is checked structurally (source order, unmodified entries identical, ranges partition the output, nested records "
+            "partition their parent range) and list_sources / list_targets are checked to be inverse at every output index and one past the end. One known finding (hoisted declarations).", TRUST, "5/C19"),
+    "C30": ("Two regions, each undeclared or declared BIT/OCTET/INTEGER/REAL, and <= N body instructions (quick 2, thorough 3) from 28 templates (every arithmetic, comparison, "
+            "logic, MOVE/EXCHANGE/LOAD/STORE, frame-update and pulse form) with solver-chosen region names: the real type_check against a typing table written from the "
+            "statement; the verdict is invariant under reordering, duplication and consistent renaming.", TRUST, "5/C30"),
+    "C33": ("Bodies of <= 2 instructions with <= 2 definitions, iteration count a symbolic 32-bit value for the shape obligations (prologue, body once, decrement, JUMP-WHEN, "
+            "definitions kept, source untouched) and n in {0,1,2,3,5} executed by a small interpreter of the five control instructions: the body runs exactly n times.",
+            TRUST, "5/C33"),
+    "C34": ("Bodies of <= N instructions (quick 2, thorough 3) over gates, MEASURE, FENCE, LABEL, JUMP, JUMP-WHEN with every qubit a solver-chosen u64 or one of 3 placeholders "
+            "and every target a fixed label or placeholder: the real resolve_placeholders and resolve_placeholders_with_custom_resolvers: equal placeholders get equal values, "
+            "distinct ones distinct values unused by fixed qubits/labels, custom resolver values win, nothing else changes.", TRUST, "5/C34"),
     "C22": ("All single blocks of <= N instructions (quick 2, thorough 3) plus an optional terminator over 16 classical / RF templates with solver-chosen operands, "
             "scheduled by the real ScheduledProgram::from_program: every edge points forward in block order; with all RF instructions matched every node is reachable "
             "from the start and reaches the end.", TRUST, "5/C22"),
